@@ -9,6 +9,7 @@ ORACLES = {
     "c02": E.oracle_c02,
     "c03": E.oracle_c03,
     "c07walk": E.oracle_c07_walk,
+    "c18": E.oracle_c18,
 }
 
 # (scenario factory, args, depth quick, depth thorough, split on first symbol)
@@ -38,16 +39,19 @@ def plan(tier, include_args=True, include_noreq=False, only=None):
             out.append(("args", (c,), 4 if tier == "quick" else 6, False))
     if include_noreq:
         for c in S.all_commands():
-            out.append(("args_noreq", (c,), 4 if tier == "quick" else 6, False))
+            out.append(("args_noreq", (c,), 5 if tier == "quick" else 6, False))
     return out
 
 
-def make_tasks(tier, seed, oracles, layouts=(), layout_depth=2, budget_s=None, **kw):
+POSTS = {"c07removal": E.post_c07_removal, "c18suffix": E.post_c18_suffix}
+
+
+def make_tasks(tier, seed, oracles, layouts=(), layout_depth=2, budget_s=None, post=None, base_layout="space", **kw):
     tasks = []
     for name, args, depth, split in plan(tier, **kw):
         scn = getattr(S, "scn_" + name)(*args)
         base = dict(scn=name, args=args, depth=depth, oracles=list(oracles), layouts=list(layouts),
-                    layout_depth=layout_depth, seed=seed, budget_s=budget_s, first=None)
+                    layout_depth=layout_depth, seed=seed, budget_s=budget_s, first=None, post=post, base_layout=base_layout)
         if split and depth >= 3:
             sig = list(scn["sigma"])
             # 1 task per first symbol
@@ -65,12 +69,13 @@ def task(t):
     orcs = [ORACLES[o] for o in t["oracles"]]
     deadline = time.time() + t["budget_s"] if t.get("budget_s") else None
     st, viols = E.bfs(scn, t["depth"], orcs, layouts=t["layouts"], layout_depth=t["layout_depth"],
-                      order_seed=t["seed"], first_symbols=t["first"], deadline=deadline)
+                      order_seed=t["seed"], first_symbols=t["first"], deadline=deadline,
+                      post=POSTS[t["post"]] if t.get("post") else None, base_layout=t.get("base_layout", "space"))
     return dict(
         scn=scn["name"], depth=t["depth"], first=t["first"], states=st.states, transitions=st.transitions,
         executions=st.executions, max_depth=st.max_depth, verdicts=st.verdicts, refkinds=st.refkinds,
         nontrivial=list(st.nontrivial), samples=st.samples, capped=st.capped, completions=st.completions,
-        layout_runs=st.layout_runs, harness_errors=st.harness_errors, violations=viols,
+        layout_runs=st.layout_runs, closer_runs=st.closer_runs, harness_errors=st.harness_errors, violations=viols,
     )
 
 
@@ -84,7 +89,7 @@ def assemble(results, extra_cov=None):
     scn_info = {}
     harness = []
     viols = []
-    compl = lay = 0
+    compl = lay = closers = 0
     for r in results:
         cov["states"] += r["states"]
         cov["transitions"] += r["transitions"]
@@ -105,6 +110,7 @@ def assemble(results, extra_cov=None):
         harness.extend(r["harness_errors"])
         viols.extend(r["violations"])
         compl += r["completions"]
+        closers += r.get("closer_runs", 0)
         lay += r["layout_runs"]
     coverage = dict(
         states=cov["states"],
@@ -123,6 +129,7 @@ def assemble(results, extra_cov=None):
         scenarios=scn_info,
         caps_hit=capped,
         reference_completions_run=compl,
+        closer_executions=closers,
         layout_executions=lay,
     )
     if extra_cov:
@@ -130,7 +137,7 @@ def assemble(results, extra_cov=None):
     return coverage, viols, harness
 
 
-def replay_text(payload, oracles):
+def replay_text(payload, oracles, post=None):
     """re-execute one recorded parser case without the explorer"""
     text = bytes.fromhex(payload["text_hex"])
     case = E.execute(tuple(payload.get("word") or ()), layout=payload.get("layout", "space"), text=text,
